@@ -28,6 +28,7 @@ from typing import TYPE_CHECKING
 from igraph import Vertex
 
 from explorerscript.ssb_converting.decompiler.write_handlers.abstract import AbstractWriteHandler, FallbackToJump
+from explorerscript.ssb_converting.ssb_special_ops import OP_JUMP
 
 if TYPE_CHECKING:
     from explorerscript.ssb_converting.ssb_decompiler import ExplorerScriptSsbDecompiler
@@ -46,6 +47,10 @@ class ForeverContinueWriteHandler(AbstractWriteHandler):
     def write_content(self) -> Vertex | None:
         """Print a continue (if not implicit) and end"""
         logger.debug("Handling a continue; (%s)...", self.start_vertex["op"])
+        op = self.start_vertex["op"]
+        # The vertices build_loops makes up have no label. A real operation must be a Jump: any other jumping
+        # operation (eg. a case outside of a switch we recognized) would silently lose its condition.
+        assert op.label is None or op.root.op_code.name == OP_JUMP, f"A {op.root.op_code.name} can not be written as continue."
         if len(self.decompiler.forever_start_handler_stack) < 1:
             # We REALLY shouldn't land here, if we are outside of a loop, but sometimes loop detection still
             # raises some "false positives" and builds loops that have break statements reachable from outside
